@@ -21,7 +21,10 @@ vars == <<ps, req, exp>>
 
 Perm(T) == [act : Actions, typ : T, org : Ids, id : Ids]
 
-SeqsUpTo(S, n) == {SetToSeq(X) : X \in UNION {kSubset(k, S) : k \in 0..n}}
+\* subsets of S with at most n elements (FiniteSetsExt!kSubset is limited to |S| <= 62)
+RECURSIVE SubsetsUpTo(_, _)
+SubsetsUpTo(S, n) == IF n = 0 THEN {{}} ELSE LET P == SubsetsUpTo(S, n - 1) IN P \cup {X \cup {a} : X \in P, a \in S}
+SeqsUpTo(S, n) == {SetToSeq(X) : X \in SubsetsUpTo(S, n)}
 
 \* allowed: what the transcribed code answers (implementation layer)
 \* may / must: the contract's bounds - the statement's necessary condition, and the converse on the unambiguous forms
